@@ -41,9 +41,10 @@ type regKey struct {
 }
 
 type State struct {
-	regs  map[regKey]*Val
-	heap  map[string]string // component (incl. globals, ghost, $next) -> term
-	epoch int               // components absent from heap have version "<leaf>@e<epoch>" ("@0" for epoch 0)
+	regs   map[regKey]*Val
+	heap   map[string]string // component (incl. globals, ghost, $next) -> term
+	epoch  int               // components absent from heap have version "<leaf>@e<epoch>" ("@0" for epoch 0)
+	pepoch int               // same for protected components (ghost state, logger configuration, registry tables)
 }
 
 func epochName(leaf string, epoch int) string {
@@ -53,8 +54,35 @@ func epochName(leaf string, epoch int) string {
 	return sym(fmt.Sprintf("%s@e%d", leaf, epoch))
 }
 
+// protectedLeaf: components that "auto" (noghost) contracts promise not to write: ghost state,
+// logger and writer-set configuration, the level registry and the global switches.
+func protectedLeaf(leaf string) bool {
+	const r = rootPkg
+	for _, p := range []string{"G:" + r + ".ghost.", "F:" + r + ".Entry.", "F:" + r + ".dualWriter.", "F:" + r + ".logwr.", "F:" + r + ".filewr.",
+		"E:" + r + ".LogWriter", "M:map[" + r + ".Level]", "M:map[string]" + r + ".Level", "M:map[int]map[" + r + ".Level]"} {
+		if strings.HasPrefix(leaf, p) {
+			return true
+		}
+	}
+	if strings.HasPrefix(leaf, "G:"+r+".") {
+		switch leaf[len("G:"+r+"."):] {
+		case "flags", "inTesting", "defaultWriter", "defaultLog", "mLevelIsEnabledAs", "mLevelUseErrorDevice", "mLevelColors",
+			"levelToString", "stringToLevel", "shortTagMap", "allLevels", "levelOutputWidth", "minimalMessageWidth", "discardWriter", "lvlCurrent":
+			return true
+		}
+	}
+	return false
+}
+
+func (s *State) epochOf(leaf string) int {
+	if protectedLeaf(leaf) {
+		return s.pepoch
+	}
+	return s.epoch
+}
+
 func (s *State) clone() *State {
-	n := &State{regs: make(map[regKey]*Val, len(s.regs)), heap: make(map[string]string, len(s.heap)), epoch: s.epoch}
+	n := &State{regs: make(map[regKey]*Val, len(s.regs)), heap: make(map[string]string, len(s.heap)), epoch: s.epoch, pepoch: s.pepoch}
 	for k, v := range s.regs {
 		n.regs[k] = v
 	}
@@ -283,11 +311,12 @@ type Ctx struct {
 }
 
 type writeSet struct {
-	regs       map[regKey]bool
-	comps      map[string]map[string]bool // leaf comp -> set of ref terms ("" = whole)
-	wins       map[string][][2]string     // leaf comp + "\x00" + ref -> windows (nil entry = whole array)
-	whole      map[string]bool
-	everything bool
+	regs                  map[regKey]bool
+	comps                 map[string]map[string]bool // leaf comp -> set of ref terms ("" = whole)
+	wins                  map[string][][2]string     // leaf comp + "\x00" + ref -> windows (nil entry = whole array)
+	whole                 map[string]bool
+	everything            bool
+	everythingUnprotected bool
 }
 
 func newWriteSet() *writeSet {
@@ -396,7 +425,7 @@ func (c *Ctx) H(st *State, leaf, sort string) string {
 	if t, ok := st.heap[leaf]; ok {
 		return t
 	}
-	name := epochName(leaf, st.epoch)
+	name := epochName(leaf, st.epochOf(leaf))
 	c.declare(name, sort)
 	if c.compSorts == nil {
 		c.compSorts = map[string]string{}
@@ -908,12 +937,19 @@ func (c *Ctx) mergeStates(sts []*State, conds []string) *State {
 	if len(sts) == 1 {
 		return sts[0].clone()
 	}
-	out := &State{regs: map[regKey]*Val{}, heap: map[string]string{}, epoch: sts[0].epoch}
+	out := &State{regs: map[regKey]*Val{}, heap: map[string]string{}, epoch: sts[0].epoch, pepoch: sts[0].pepoch}
 	for _, s := range sts[1:] {
 		if s.epoch != out.epoch {
 			// different unknown-heap epochs: components never touched so far become unknown
 			c.nepoch++
 			out.epoch = c.nepoch
+			break
+		}
+	}
+	for _, s := range sts[1:] {
+		if s.pepoch != out.pepoch {
+			c.nepoch++
+			out.pepoch = c.nepoch
 			break
 		}
 	}
@@ -976,7 +1012,7 @@ func (c *Ctx) mergeStates(sts []*State, conds []string) *State {
 			hk[k] = true
 		}
 	}
-	if out.epoch != sts[0].epoch {
+	if out.epoch != sts[0].epoch || out.pepoch != sts[0].pepoch {
 		// epochs differ: every component known so far must be joined explicitly
 		for k := range c.compSorts {
 			hk[k] = true
@@ -993,7 +1029,7 @@ func (c *Ctx) mergeStates(sts []*State, conds []string) *State {
 		for i, s := range sts {
 			t, ok := s.heap[k]
 			if !ok {
-				t = epochName(k, s.epoch)
+				t = epochName(k, s.epochOf(k))
 			}
 			terms[i] = t
 			if t != terms[0] {
@@ -1001,7 +1037,7 @@ func (c *Ctx) mergeStates(sts []*State, conds []string) *State {
 			}
 		}
 		if same {
-			if _, ok := sts[0].heap[k]; ok || out.epoch != sts[0].epoch {
+			if _, ok := sts[0].heap[k]; ok || out.epochOf(k) != sts[0].epochOf(k) {
 				out.heap[k] = terms[0]
 			}
 			continue
